@@ -212,7 +212,10 @@ def run_case_(case):
                         assert k.shape == parr.shape
                         return parr.copy()
                 op = ift.create_power_operator(dom, pf, space=idx if len(dom) > 1 or case.get("give_space") else None)
-                obs["out"] = arr_out(op(field_of(dom, case)))
+                # DiagonalOperator.apply in the case's mode (cases without "mode": TIMES, as before)
+                meth = {"times": op.times, "adjoint": op.adjoint_times, "inverse": op.inverse_times,
+                        "adjoint_inverse": op.adjoint_inverse_times}[case.get("mode", "times")]
+                obs["out"] = arr_out(meth(field_of(dom, case)))
             else:
                 pd = ift.PowerDistributor(dom, None if case.get("default_ps") else ps,
                                           idx if len(dom) > 1 or case.get("give_space") else None)
@@ -365,7 +368,11 @@ def coq_check_(case, obs):
         elif kind in ("adjoint", "dof_adjoint"):
             parts.append("eq_list (q_adjoint %s %d%%nat %s %d%%nat (qcs %s)) (qcs %s)" % (d, idx, pin, nb, x, y))
         elif kind == "powop":
-            parts.append("eq_list (q_powop %s %d%%nat %s %d%%nat (qcs %s) (qcs %s)) (qcs %s)" % (d, idx, pin, nb, cqs(case["p"]), x, y))
+            if case.get("mode") is None:
+                parts.append("eq_list (q_powop %s %d%%nat %s %d%%nat (qcs %s) (qcs %s)) (qcs %s)" % (d, idx, pin, nb, cqs(case["p"]), x, y))
+            else:       # four-mode model (C10_power_operator_modes); inverse modes: p = +-2^k, the float quotient is exact
+                parts.append("eq_list (q_powop_apply %s %s %d%%nat %s %d%%nat (qcs %s) (qcs %s)) (qcs %s)" % (
+                    MODE_CTOR[case["mode"]], d, idx, pin, nb, cqs(case["p"]), x, y))
     if (obs["out"]["im"] is None) != (case.get("im") is None):
         return "false"
     return " && ".join("(%s)" % p for p in parts)
@@ -404,6 +411,9 @@ def closeto(a, b):
     return a.shape == b.shape and bool(np.all(np.abs(a - b) <= 1e-9 * np.maximum(1.0, np.abs(b))))
 
 
+MODE_CTOR = {"times": "MTimes", "adjoint": "MAdjoint", "inverse": "MInverse", "adjoint_inverse": "MAdjInverse"}
+
+
 def signature(case, obs=None):
     if case["kind"] == "ahist":
         return {"fn": "power_analyze", "history": True, "dtype": "mixed"}
@@ -417,6 +427,7 @@ def signature(case, obs=None):
         sig["keep_phase"] = bool(case["keep"])
     if case["kind"] == "powop":
         sig["spectrum"] = "callable" if case.get("p_callable") else "Field"
+        sig["mode"] = case.get("mode", "times")
     if obs is not None and obs.get("error"):
         sig["error"] = obs["error"]
     return sig
@@ -518,9 +529,14 @@ def direct_failure_(case, obs):
         p = np.array(case["p"], dtype=np.float64)
         shp = [1] * len(sh_h)
         shp[idx] = sh_h[idx]
-        ref = (x.reshape(sh_h) * p[np.asarray(pin)].reshape(shp)).ravel()
-        if not np.array_equal(out, ref):
-            return "power operator is not the diagonal of the distributed spectrum"
+        if case.get("mode", "times") in ("inverse", "adjoint_inverse"):
+            ref = (x.reshape(sh_h) / p[np.asarray(pin)].reshape(shp)).ravel()      # p = +-2^k: exact
+            if not np.array_equal(out, ref):
+                return "power operator in mode %s does not divide every mode by its bin's spectrum value" % case["mode"]
+        else:
+            ref = (x.reshape(sh_h) * p[np.asarray(pin)].reshape(shp)).ravel()
+            if not np.array_equal(out, ref):
+                return "power operator is not the diagonal of the distributed spectrum"
     return None
 
 
@@ -648,6 +664,14 @@ def gen_dom(rng, nactive, weighted, maxtotal=160):
     return act[:1], [0]
 
 
+def set_mode(rng, case, nb, mode=None):
+    """Application mode of the power operator; in the inverse modes the spectrum is +-2^k (k = -2..3), never 0, so that
+    the float64 quotient is exact and the zero-division case (excluded by C10_power_operator_inverse) does not occur."""
+    case["mode"] = mode or ["times", "adjoint", "inverse", "adjoint_inverse"][int(rng.integers(0, 4))]
+    if case["mode"] in ("inverse", "adjoint_inverse"):
+        case["p"] = [float(sg) * 2.0 ** int(k) for sg, k in zip(rng.choice([-1, 1], size=nb), rng.integers(-2, 4, size=nb))]
+
+
 def gen_case(rng, kind):
     cplx = bool(rng.integers(0, 2))
     if kind in ("times", "adjoint", "powop"):
@@ -666,6 +690,7 @@ def gen_case(rng, kind):
         if kind == "powop":
             case["p"] = ints(rng, nb, 0, 12)
             case["p_callable"] = bool(bb is None and rng.integers(0, 2))
+            set_mode(rng, case, nb)
         return case
     if kind in ("dof_times", "dof_adjoint"):
         specs, (idx,) = gen_dom(rng, 1, False)
@@ -868,6 +893,7 @@ def forced_cases(rng):
             if kind == "powop":
                 case["p"] = ints(rng, nb, 0, 12)
                 case["p_callable"] = False
+                set_mode(rng, case, nb, "inverse")
         case["re"] = ints(rng, n_in)
         case["im"] = ints(rng, n_in) if cplx else None
         out.append(case)
@@ -912,7 +938,7 @@ def nontrivial_key(case, obs):
     if not ok:
         return None
     return json.dumps([case["kind"], case["dom"], case.get("idx"), case.get("spaces"), case.get("binbounds"),
-                       case.get("dofdex"), case.get("keep"), case.get("im") is None], sort_keys=True)
+                       case.get("dofdex"), case.get("keep"), case.get("im") is None, case.get("mode")], sort_keys=True)
 
 
 class C10(C.Check):
@@ -968,10 +994,11 @@ class C10(C.Check):
             errs += (o["error"] is not None) + sum(1 for so in o.get("steps", []) if so["error"] is not None)
         res.coverage.update({
             "evaluations": len(self.cases), "distinct_nontrivial": len(keys),
-            "rule": "generated product domains (1-3 sub-domains; analysed: harmonic RGSpace 1-D sizes 1-9 / 2-D up to 5x5 with dyadic distances, LMSpace lmax<=3; passive: RG, GL, PowerSpace, DOFSpace, LM, Unstructured), natural / midpoint-subset / linear / logarithmic / deliberately empty binnings, arbitrary dofdex for DOFDistributor, integer-valued real and complex fields; bin sums with a huge dynamic range (members m*2^e_b, exponents 30-100 apart between bins, both orders) and inf / -inf / nan in single bins for the adjoint distributors (compared exactly, clean bins through C10_adjoint_bin_independent) and steep spectra for power_analyze; forced classes (acted-on sub-domain in the middle of a product domain with > 1 pixel before and after; several harmonic sub-domains with spaces = 0 / 1 / tuples / None; sub-domains without volume factors); histories of 2-4 create_power_operator / PS_field calls with ONE stateful callable (instance with __call__, bound method, functools.partial) whose parameters change between the calls; histories of 3-7 power_analyze calls on ONE domain with changing binnings (natural / custom / empty bins, failing call then retry with the same binning), fields, dtypes and phase flags, every call compared with the pure model of its own arguments; non-trivial = at least 2 bins and a bin with at least 2 modes; distinct by (kind, domain, space, binning, dofdex, phase flag, dtype)",
+            "rule": "generated product domains (1-3 sub-domains; analysed: harmonic RGSpace 1-D sizes 1-9 / 2-D up to 5x5 with dyadic distances, LMSpace lmax<=3; passive: RG, GL, PowerSpace, DOFSpace, LM, Unstructured), natural / midpoint-subset / linear / logarithmic / deliberately empty binnings, arbitrary dofdex for DOFDistributor, integer-valued real and complex fields; bin sums with a huge dynamic range (members m*2^e_b, exponents 30-100 apart between bins, both orders) and inf / -inf / nan in single bins for the adjoint distributors (compared exactly, clean bins through C10_adjoint_bin_independent) and steep spectra for power_analyze; forced classes (acted-on sub-domain in the middle of a product domain with > 1 pixel before and after; several harmonic sub-domains with spaces = 0 / 1 / tuples / None; sub-domains without volume factors); histories of 2-4 create_power_operator / PS_field calls with ONE stateful callable (instance with __call__, bound method, functools.partial) whose parameters change between the calls; the power operator applied in all four modes (TIMES, ADJOINT_TIMES, INVERSE_TIMES, ADJOINT_INVERSE_TIMES; in the inverse modes the spectrum is +-2^k so that the float quotient is exact); histories of 3-7 power_analyze calls on ONE domain with changing binnings (natural / custom / empty bins, failing call then retry with the same binning), fields, dtypes and phase flags, every call compared with the pure model of its own arguments; non-trivial = at least 2 bins and a bin with at least 2 modes; distinct by (kind, domain, space, binning, dofdex, phase flag, dtype)",
             "samples": [{"case": {k: v for k, v in c.items() if k not in ("re", "im", "exact_p")}, "nbin": o.get("nbin"), "error": o["error"]}
                         for c, o in list(zip(self.cases, self.obs))[3:6]],
-            "input_distribution": {"by_function": dist, "binning": binning, "n_subdomains": ndom, "cases_raising": errs},
+            "input_distribution": {"by_function": dist, "binning": binning, "n_subdomains": ndom, "cases_raising": errs,
+                                   "power_operator_modes": {m: sum(1 for c in self.cases if c["kind"] == "powop" and c.get("mode") == m) for m in MODE_CTOR}},
             "disagreements": len(bad), "exhaustive": False,
             "comparison": "EXACT (Qc) for distributor times/adjoint, power operator, bin volumes; 2^-40 relative for power_analyze outputs; ValueError <-> None",
         })
